@@ -307,14 +307,21 @@ func checkC13(p *Prog, res *Result, tier string) {
 							continue
 						}
 						n++
-						prm, isPrm := resolve(ia.Index).(*ssa.Parameter)
-						if !isPrm || prm.Parent() != worker {
+						prm, fld := ownIndexOf(ia.Index, worker)
+						if prm == nil {
 							bad = true
 							res.bad("C13-R3", construct, p.pos(st.Pos()), "a worker goroutine writes an element of a shared slice at an index other than its own partition index")
 							continue
 						}
 						// the index handed to the goroutine differs from one goroutine to the next: not a constant
 						if a := goActual(goSites[wi], prm); a != nil {
+							if fld != nil {
+								// the index travels in a field of a configuration struct built for this goroutine
+								a = structLiteralField(a, fld)
+							}
+							if a == nil {
+								continue
+							}
 							if _, isConst := resolve(a).(*ssa.Const); isConst {
 								bad = true
 								res.bad("C13-R3", construct, p.pos(goSites[wi].Pos()), "every worker goroutine is started with the same constant index: they all write the same element of the shared slices")
@@ -997,6 +1004,28 @@ func goActual(g *ssa.Go, prm *ssa.Parameter) ssa.Value {
 	if _, isClosure := g.Common().Value.(*ssa.MakeClosure); isClosure || g.Common().StaticCallee() != nil {
 		if idx >= 0 && idx < len(args) {
 			return args[idx]
+		}
+	}
+	return nil
+}
+
+// structLiteralField: v is (a load of) a struct literal; the value stored into its field fld, or nil.
+func structLiteralField(v ssa.Value, fld *types.Var) ssa.Value {
+	ld, ok := resolve(v).(*ssa.UnOp)
+	if !ok || ld.Op != token.MUL {
+		return nil
+	}
+	al, ok := ld.X.(*ssa.Alloc)
+	if !ok {
+		return nil
+	}
+	for _, ref := range *al.Referrers() {
+		if fa, ok := ref.(*ssa.FieldAddr); ok && fieldOf(fa) == fld {
+			for _, r2 := range *fa.Referrers() {
+				if st, ok := r2.(*ssa.Store); ok && st.Addr == ssa.Value(fa) {
+					return st.Val
+				}
+			}
 		}
 	}
 	return nil
